@@ -46,25 +46,42 @@ impl Delay {
                 *v = (-0.5 * u * u).exp();
             }
         }
+        let boxed = rng.chance(0.12);
         let desc = J::obj()
             .with("sample", J::s(T::NAME))
             .with("cfg", cfg.json())
             .with("set_ratio_before_first_call", pre_ratio.map(J::f).unwrap_or(J::Null))
             .with("pulse_centre_input_frame", J::f(n0))
             .with("pulse_sigma", J::f(sigma))
-            .with("clip_length", J::u(clip_len));
+            .with("clip_length", J::u(clip_len))
+            .with("through_boxed_vecresampler", J::b(boxed));
         set_desc(&desc);
         let mut cr = CaseResult { desc, ..Default::default() };
         if ctx.describe {
             return cr;
         }
-        let mut run = match Runner::<T>::fresh(&cfg, Sig { seed: 0, kind: SigKind::Table(table) }) {
-            Ok(r) => r,
-            Err(e) => {
-                cr.inconclusive = Some(e);
-                return cr;
+        // 12 % of the cases read output_delay() and stream through the object-safe VecResampler wrapper
+        let sig = Sig { seed: 0, kind: SigKind::Table(table) };
+        let mut run = if boxed {
+            match crate::any::AnyRes::<T>::build(&cfg) {
+                Ok(r) => Runner::new(&cfg, Box::new(Boxed(r.boxed())), sig),
+                Err(e) => {
+                    cr.inconclusive = Some(format!("{}", e));
+                    return cr;
+                }
+            }
+        } else {
+            match Runner::<T>::fresh(&cfg, sig) {
+                Ok(r) => r,
+                Err(e) => {
+                    cr.inconclusive = Some(e);
+                    return cr;
+                }
             }
         };
+        if boxed {
+            st.add("cases_through_boxed_vecresampler", 1.0);
+        }
         run.check_alloc = false;
         if let Some(v) = pre_ratio {
             run.step(&Op::SetRatio { v, ramp: false, rel: false });
@@ -133,7 +150,7 @@ impl Delay {
         }
         st.add("pulses_measured", 1.0);
         st.add(&format!("cases.{}", cfg.kind.name()), 1.0);
-        cr.class = Some(format!("{}|{}|{}", T::NAME, cfg.class(), pre_ratio.is_some()));
+        cr.class = Some(format!("{}|{}|{}|{}", T::NAME, cfg.class(), pre_ratio.is_some(), boxed));
         cr
     }
 }
